@@ -356,22 +356,77 @@ def r4_presence_usage(ctx):
                 bad.append((u, v, got))
         ok = not bad and any(isinstance(s, ast.Return) and A.const(s.value) is False for s in nu[0].body)
     yield Ob('map_if:element_if.is_valid value in a not-used element is reported', ok, ctx.floc(fn), '' if ok else 'not-used test changed')
-    # composite
+    # composite: what is reported and answered before / besides the delegation, decided by constant propagation over
+    # usage x data (absent, all components empty, values in some components, more components than the map defines)
     cf = ctx.func('map_if', 'composite_if.is_valid')
-    first = [s for s in cf.body if isinstance(s, ast.If)][0]
+    gcf = ctx.cfg(cf)
+
+    class _Sub(object):
+        _sa_model = True
+
+        def __init__(self, v):
+            self.v = v
+
+        def get_value(self):
+            return self.v
+
+    class _Comp(object):
+        _sa_model = True
+
+        def __init__(self, vals):
+            self.subs = tuple(_Sub(v) for v in vals)
+
+        def __len__(self):
+            return len(self.subs)
+
+        def __getitem__(self, i):
+            return self.subs[i]
+
+        def is_empty(self):
+            return not any(x.v for x in self.subs)
+
+        def __repr__(self):
+            return ':'.join(x.v for x in self.subs)
     bad = []
-    for empty, u in itertools.product((True, False), ('N', 'S', 'R')):
-        funcs = {'comp_data.is_empty': lambda e=empty: e}
-        got = bool(A.ev(first.test, {'comp_data': object() if True else None, 'self.usage': u, 'comp_data.is_empty()': empty}, funcs))
-        if got != (empty and u in ('N', 'S')):
-            bad.append((empty, u, got))
-    ok = not bad and any(isinstance(s, ast.Return) and A.const(s.value) is True for s in first.body)
-    yield Ob('map_if:composite_if.is_valid empty composite is valid iff not required', ok, ctx.floc(cf, first), '' if ok else 'early-accept test %s' % bad[:1])
-    nu = [s for s in cf.body if isinstance(s, ast.If) and "self.usage == 'N'" in norm(s.test) and s is not first]
-    ok = len(nu) == 1 and any(isinstance(s, ast.Return) and A.const(s.value) is False for s in nu[0].body) and 'not comp_data.is_empty()' in norm(nu[0].test)
-    yield Ob('map_if:composite_if.is_valid data in a not-used composite is reported', ok, ctx.floc(cf), '' if ok else 'not-used test changed')
-    tm = [s for s in cf.body if isinstance(s, ast.If) and 'len(comp_data) > self.get_child_count()' in norm(s.test)]
-    yield Ob('map_if:composite_if.is_valid too many components reported', len(tm) == 1, ctx.floc(cf), '' if len(tm) == 1 else 'test changed')
+    for u, vals in itertools.product(('N', 'S', 'R'), (None, ('',), ('', ''), ('A',), ('', 'B'), ('A', 'B', 'C'))):
+        comp = None if vals is None else _Comp(vals)
+        nkids = 2
+        kids = tuple(_Child(i, 'element') for i in range(nkids))
+        env = {'comp_data': comp, 'self.usage': u, 'self.children': kids, 'self.name': 'n', 'self.refdes': 'r'}
+        funcs = {'self.get_child_count': lambda: nkids, 'self.get_child_node_by_idx': lambda i: kids[i], 'self.__len__': lambda: nkids}
+
+        def key(c):
+            if _is_report(c):
+                return 'report'
+            return 'is_valid@recv' if A.call_target(c)[1] == 'is_valid' else None
+        try:
+            res = traces(gcf, env, key, funcs=funcs, returns=True)
+        except NotClosedTest as e:
+            raise AnalysisError('composite_if.is_valid cannot be decided for usage %s and data %r: %s' % (u, comp, e))
+        blank = comp is None or comp.is_empty()
+        if blank and u in ('N', 'S'):
+            want = ((), True, 0)
+        elif u == 'R' and blank:
+            want = (('2',), False, 0)
+        elif u == 'N':
+            want = (('5',), False, 0)
+        else:
+            want = (('3',) if len(vals) > nkids else (), None, nkids)
+        for tr, _e in res:
+            reps = tuple(a_[1][0] for a_ in tr if a_[0] == 'report')
+            rets = [a_[1][0] for a_ in tr if a_[0] == '@return']
+            ndel = len([a_ for a_ in tr if a_[0] == 'is_valid@recv'])
+            got = (reps, rets[-1] if rets else None, ndel)
+            if (got[0], got[2]) != (want[0], want[2]) or (want[1] is not None and got[1] is not want[1]):
+                bad.append('usage %s, data %s: reports %s, answers %r, asks %d of its %d components; expected reports %s%s, %d asked' % (
+                    u, 'absent' if comp is None else repr(str(comp)), list(got[0]), got[1], got[2], nkids, list(want[0]),
+                    '' if want[1] is None else ', answer %r' % want[1], want[2]))
+    yield Ob('map_if:composite_if.is_valid empty composite is valid iff not required', not [b_ for b_ in bad if 'usage N' not in b_ or "data ''" in b_ or 'absent' in b_],
+             ctx.floc(cf), '' if not bad else bad[0])
+    yield Ob('map_if:composite_if.is_valid data in a not-used composite is reported', not [b_ for b_ in bad if 'usage N' in b_], ctx.floc(cf),
+             '' if not [b_ for b_ in bad if 'usage N' in b_] else [b_ for b_ in bad if 'usage N' in b_][0])
+    yield Ob('map_if:composite_if.is_valid too many components reported', not [b_ for b_ in bad if "A:B:C" in b_], ctx.floc(cf),
+             '' if not [b_ for b_ in bad if "A:B:C" in b_] else [b_ for b_ in bad if "A:B:C" in b_][0])
     # delegation covers present and missing components: one loop over range(min(len(DATA), N)) validating DATA[i],
     # one over range(min(len(DATA), N), N) validating None - N being the child count, in a local or re-read
     for o in _delegation_by_position(ctx):
@@ -527,79 +582,81 @@ def r5_data(ctx):
 
 
 def r7_dtp_format_from_qualifier(ctx):
-    """"the date/time format is the one chosen by the preceding qualifier": for element 03 of a DTP segment the list of
-    formats handed to the element validator holds the qualifier actually sent in DTP02 and nothing else.  The arm of
-    the element dispatch that is taken for (DTP, position 3) is found by evaluating the arm tests; the list it passes
-    must be bound only to `[<value of element 02>]` (or the empty list) and never grown."""
+    """"the date/time format is the one chosen by the preceding qualifier": decided by constant propagation through
+    segment_if.is_valid on a DTP segment (qualifier, format qualifier DTP02, value) for every DTP02 - the list of formats
+    handed to the validator of DTP03 holds the qualifier actually sent in DTP02 and nothing else (nothing when DTP02 is
+    not a date/time format) - and on a segment with a 1250/1251 pair: the list for the 1251 element is the code list of
+    the 1250 element before it."""
+    from ..absint import traces, NotClosedTest
     fn = ctx.func('map_if', 'segment_if.is_valid')
-    calls = [c for c in A.calls_in(fn) if A.call_target(c)[1] == 'is_valid' and len(c.args) == 3]
-    if not calls:
-        yield Ob('map_if:segment_if.is_valid passes a format list for date/time elements', False, ctx.floc(fn), 'no is_valid(.., .., type list) call')
-        return
-    env = {'i': 2, 'seg_data.get_seg_id()': 'DTP', 'seg_id': 'DTP', 'child_node.data_ele': '1251'}
-    # the element loop's own names: its index variable stands at element 03, the child node is the DTP03 element
-    lp = A.enclosing(calls[0], (ast.For,))
-    if lp is not None:
-        for x in ast.walk(lp.target):
-            if isinstance(x, ast.Name):
-                env[x.id] = 2
-                for st in ast.walk(lp):
-                    if isinstance(st, ast.Assign) and isinstance(st.value, ast.Call) and A.call_target(st.value)[1] == 'get_child_node_by_idx' \
-                            and st.value.args and path_of(st.value.args[0]) == x.id and isinstance(st.targets[0], ast.Name):
-                        env[st.targets[0].id + '.data_ele'] = '1251'
-    taken = []
-    for c in calls:
-        st = A.enclosing(c, (ast.stmt,))
-        verdict = True
-        for t, pol in A.path_condition(st, fn):
-            try:
-                v = bool(A.ev(t, env)) == pol
-            except (A.NotClosed, TypeError, AttributeError):
-                v = None
-            if v is False:
-                verdict = False
-                break
-            if v is None and verdict is True:
-                verdict = None
-        if verdict is not False:
-            taken.append((c, verdict))
-    # arms of one if/elif chain are tried in order: a call is only reached if no earlier arm is certainly taken
-    po_ = A.preorder(fn)
-    taken.sort(key=lambda cv: po_[id(cv[0])])
-    reach = []
-    for c, v in taken:
-        reach.append(c)
-        if v is True:
-            break
-    if not reach:
-        yield Ob('map_if:segment_if.is_valid DTP03 is validated with a format list', False, ctx.floc(fn),
-                 'no format-list call is reached for element 03 of a DTP segment')
-        return
-    for c in reach:
-        lst = c.args[2]
-        probs = []
-        if isinstance(lst, ast.Name):
-            nm = lst.id
-            for n in ast.walk(fn):
-                if isinstance(n, ast.Assign) and any(path_of(t) == nm for t in n.targets):
-                    v = n.value
-                    okv = isinstance(v, ast.List) and (not v.elts or (len(v.elts) == 1 and isinstance(v.elts[0], ast.Call)
-                                                                        and A.call_target(v.elts[0])[1] == 'get_value'
-                                                                        and A.const(v.elts[0].args[0]) in ('02', 'DTP02')))
-                    if not okv:
-                        probs.append('bound to %s' % norm(v))
-                if isinstance(n, ast.AugAssign) and path_of(n.target) == nm:
-                    probs.append('grown by %s' % norm(n))
-                if isinstance(n, ast.Call) and A.call_target(n)[0] == nm and A.call_target(n)[1] in ('extend', 'append', 'insert'):
-                    probs.append('grown by %s' % norm(n))
-        elif isinstance(lst, ast.List) and len(lst.elts) == 1 and isinstance(lst.elts[0], ast.Call) \
-                and A.call_target(lst.elts[0])[1] == 'get_value' and A.const(lst.elts[0].args[0]) in ('02', 'DTP02'):
-            pass
+    g = ctx.cfg(fn)
+
+    class _Seg(object):
+        _sa_model = True
+
+        def __init__(self, sid, vals):
+            self.sid, self.vals = sid, tuple(vals)
+
+        def __len__(self):
+            return len(self.vals)
+
+        def get_seg_id(self):
+            return self.sid
+
+        def get(self, rd):
+            i = int(rd[-2:]) - 1
+            return ('ele', i) if 0 <= i < len(self.vals) else None
+
+        def get_value(self, rd):
+            i = int(rd[-2:]) - 1
+            return self.vals[i] if 0 <= i < len(self.vals) else None
+
+        def __hash__(self):
+            return hash((self.sid, self.vals))
+
+        def __eq__(self, o):
+            return isinstance(o, _Seg) and (o.sid, o.vals) == (self.sid, self.vals)
+
+    def kids_for(eles, codes):
+        out = []
+        for i, de in enumerate(eles):
+            c = _Child(i, 'element')
+            c.data_ele = de
+            c.valid_codes = codes if de == '1250' else ()
+            out.append(c)
+        return tuple(out)
+    bad = []
+    runs = 0
+    DT = ('RD8', 'D8', 'D6', 'DT', 'TM')
+    for sid, eles, vals, codes in [('DTP', ('374', '1250', '1251'), ('434', q, '20040101'), ('D8', 'RD8')) for q in DT + ('XX', '')] \
+            + [('DMG', ('1250', '1251', '1068'), ('D8', '19700101', 'F'), ('D8',)), ('DMG', ('1250', '1251', '1068'), ('D8', '19700101', 'F'), ('D8', 'D6', 'CC'))]:
+        kids = kids_for(eles, codes)
+        seg = _Seg(sid, vals)
+        env = {'self.children': kids, 'seg_data': seg, 'self.usage': 'R', 'self.syntax': (), 'self.name': 'n'}
+        funcs = {'self.get_child_count': lambda kids=kids: len(kids), 'self.get_child_node_by_idx': lambda i, kids=kids: kids[i],
+                 'self.__len__': lambda kids=kids: len(kids)}
+        try:
+            res = traces(g, env, lambda c: 'is_valid@recv' if A.call_target(c)[1] == 'is_valid' else None, funcs=funcs)
+        except NotClosedTest as e:
+            raise AnalysisError('segment_if.is_valid: the format list of a %s segment cannot be decided: %s' % (sid, e))
+        runs += 1
+        idx = eles.index('1251')
+        if sid == 'DTP':
+            want = (vals[1],) if vals[1] in DT else ()
         else:
-            probs.append('is %s' % norm(lst))
-        yield Ob('map_if:segment_if.is_valid DTP03 format list holds only the qualifier sent in DTP02', not probs, ctx.floc(fn, c),
-                 '' if not probs else 'the list passed for DTP03 (%s) is %s: a value in any other format the map allows would be accepted'
-                 % (norm(lst), '; '.join(probs[:2])))
+            want = tuple(codes)
+        for tr, _e in res:
+            calls = [a_[1] for a_ in tr if a_[0] == 'is_valid@recv' and a_[1] and a_[1][0] is kids[idx]]
+            if len(calls) != 1:
+                bad.append('%s: element %02d is validated %d times' % (sid, idx + 1, len(calls)))
+                continue
+            lst = calls[0][3] if len(calls[0]) > 3 else ()
+            lst = tuple(lst) if isinstance(lst, (tuple, list)) else lst
+            if lst != want:
+                bad.append('%s with %s: the formats handed to the validator of element %02d are %s, the qualifier says %s' % (
+                    sid, '*'.join(vals), idx + 1, list(lst) if isinstance(lst, tuple) else lst, list(want)))
+    yield Ob('map_if:segment_if.is_valid DTP03 format list holds only the qualifier sent in DTP02', not bad, ctx.floc(fn),
+             '' if not bad else bad[0] + ': a value in any other format the map allows would be accepted', note='%d segments' % runs)
 
 
 def r8_exclusion_list(ctx):
